@@ -79,6 +79,9 @@ func runFetchCase(c FetchCase) *vt.Outcome {
 	cache := vcache.NewCache(eng)
 	var id ksuid.KSUID
 	copy(id[:], "verif-object-id-0001")
+	// callers left behind by an earlier (deadlocked) case of this process
+	_, baseLock := goroutinesIn("vcache.(*Cache).lock")
+	_, baseFetch := goroutinesIn("vcache.(*Cache).Fetch")
 	var wg sync.WaitGroup
 	var done atomic.Int32
 	errs := make([]error, c.Fetchers)
@@ -97,7 +100,7 @@ func runFetchCase(c FetchCase) *vt.Outcome {
 	// wait until another caller has reached the per-object lock
 	for spins := 0; ; spins++ {
 		// (one caller can be inside Cache.lock at a time: it keeps Cache.mu while it waits, the others queue on Cache.mu)
-		if _, blocked := goroutinesIn("vcache.(*Cache).lock"); blocked >= 1 {
+		if _, blocked := goroutinesIn("vcache.(*Cache).lock"); blocked-baseLock >= 1 {
 			break
 		}
 		if spins > 2000 {
@@ -128,6 +131,10 @@ func runFetchCase(c FetchCase) *vt.Outcome {
 		}
 		remaining := c.Fetchers - int(done.Load())
 		_, blocked := goroutinesIn("vcache.(*Cache).Fetch")
+		blocked -= baseFetch
+		if os.Getenv("C09_DEBUG") != "" && spins%100 == 0 {
+			fmt.Println("spin", spins, "remaining", remaining, "blocked", blocked, "stuck", stuck)
+		}
 		if remaining > 0 && blocked == remaining {
 			stuck++
 		} else {
